@@ -464,4 +464,9 @@ def check(pid, tier, extra=None):
     if extra is not None:
         import inspect as _i
         coverage.update(extra(rep, tier, coverage, ctx) if len(_i.signature(extra).parameters) > 3 else extra(rep, tier, coverage))
+    if pid in ("C01", "C03", "C04"):
+        # L2: the back-end machine (spec/Backend.tla) - design level, replay, trace validation of the real splits
+        import backend
+        cov, st_, n_ = backend.phase(rep, pid, tier)
+        coverage.update(cov); coverage["states"] += st_; coverage["traces_validated_against_impl"] += n_
     return rep.finish("model_checking", coverage, ASSUME)
